@@ -217,6 +217,12 @@ func ruleC13NothingOnlyWhenAbsent(c *Ctx) {
 					}
 					switch x := fct.V.(type) {
 					case *ssa.Extract: // _, ok := Envelopes[…]…[…]
+						// the comma-ok flag handed back by the sub-map helper of the in-memory metastore
+						if cv, isC := x.Tuple.(*ssa.Call); isC && !fct.True && x.Index == 1 {
+							if _, isH := subMapHelper(staticCallee(cv)); isH {
+								return true
+							}
+						}
 						// the found flag of a checked read helper is false
 						if cv, isC := x.Tuple.(*ssa.Call); isC && !fct.True {
 							if g := staticCallee(cv); g != nil && seen[g] && g.Signature.Results().Len() == 3 && x.Index == 1 {
